@@ -502,7 +502,65 @@ pub fn miri_cases(out: &mut Out) {
     }
 }
 
+/// `Clone::clone_from` (the trait method; the default is `*self = source.clone()`): afterwards the
+/// destination has exactly the source's state, whatever it held before
+fn clone_from_case<const N: usize>(kind: u8, la: usize, lb: usize) -> String {
+    use konst::array::{ArrayBuilder, ArrayConsumer};
+    let show = |l: &[u32]| show_list(l.iter(), |x| x.to_string());
+    let r = catch_unwind(AssertUnwindSafe(|| {
+        if kind == 2 {
+            let mut a = ArrayBuilder::<u32, N>::new();
+            for i in 0..la {
+                a.push(100 + i as u32);
+            }
+            let mut b = ArrayBuilder::<u32, N>::new();
+            for i in 0..lb {
+                b.push(i as u32 + 1);
+            }
+            a.clone_from(&b);
+            let vw = |x: &ArrayBuilder<u32, N>| format!("{}#{}{}", show(x.as_slice()), x.len(), show_bool(x.is_full()));
+            let (va, vb) = (vw(&a), vw(&b));
+            let build = match catch_unwind(AssertUnwindSafe(move || a.build())) {
+                Ok(arr) => format!("A{}", show(&arr)),
+                Err(_) => "PANIC".to_string(),
+            };
+            fields(&[("orig", vb.clone()), ("copy", va), ("build", build), ("after", vb)])
+        } else {
+            let mut a = ArrayConsumer::new(std::array::from_fn::<u32, N, _>(|i| 100 + i as u32));
+            for _ in 0..la {
+                let _ = a.next_back();
+            }
+            let mut b = ArrayConsumer::new(std::array::from_fn::<u32, N, _>(|i| i as u32 + 1));
+            for _ in 0..lb {
+                let _ = b.next();
+            }
+            a.clone_from(&b);
+            let (va, vb) = (show(a.as_slice()), show(b.as_slice()));
+            let mut drained = Vec::new();
+            while let Some(x) = a.next() {
+                drained.push(std::mem::ManuallyDrop::into_inner(x));
+                if drained.len() > N + 2 {
+                    break;
+                }
+            }
+            fields(&[("orig", vb.clone()), ("copy", va), ("drain", show(&drained)), ("after", show(b.as_slice()))])
+        }
+    }));
+    r.unwrap_or_else(|_| "PANIC".into())
+}
+
 fn copies(cfg: &Cfg, out: &mut Out) {
+    for n in 0..=4usize {
+        for la in 0..=n {
+            for lb in 0..=n {
+                // the line is the one `copy()` gives for a builder with lb pushes / a consumer with lb front takes
+                let i = by_n_args!(n, clone_from_case, 2u8, la, lb);
+                out.line("c11.copy", &format!("1 {} {} 0", n, lb), &i, "-", if la > lb { "clone_from-shrinks" } else { "clone_from" });
+                let i = by_n_args!(n, clone_from_case, 3u8, la, lb);
+                out.line("c11.copy", &format!("0 {} {} 0", n, lb), &i, "-", if la < lb { "clone_from-shrinks" } else { "clone_from" });
+            }
+        }
+    }
     let maxn = if cfg.thorough { 5 } else { 4 };
     for n in 0..=maxn {
         for a in 0..=n + 1 {
